@@ -750,6 +750,18 @@ fn grid_sources(tier: Tier) -> Vec<String> {
             out.push(format!("{{{{ '{brace}'|format({a}) }}}}"));
         }
     }
+    // format strings that are marked safe (their arguments get escaped first), with arguments
+    // that are undefined, none, safe, unsafe, or not strings; each row four times in a row so that
+    // it runs under all four undefined behaviours (the mode is the row index modulo 4)
+    for fmt in FORMATS {
+        for arg in ["missing", "o.missing", "none", "'<x>'", "s|safe", "true", "1.5", "l", "m", "missing|e", "missing|safe"] {
+            for _ in 0..4 {
+                out.push(format!(
+                    "{{{{ '{fmt}'|safe|format({arg}) }}}}{{{{ ('<b>{fmt}</b>'|safe) % {arg} }}}}{{% set f %}}<i>{fmt}{{% endset %}}{{{{ f|format({arg}, {arg}) }}}}{{{{ f % ({arg}, {arg}) }}}}{{{{ f|format(a={arg}) }}}}"
+                ));
+            }
+        }
+    }
     out
 }
 
